@@ -542,7 +542,7 @@ def run(ctx) -> None:
     ups.sort(key=lambda t: (t[1].lineno, t[1].col_offset))
 
     def classify_var_layer(arg: ast.AST) -> str:
-        s = source.src(arg)
+        s = source.src(match.resolve_local(gcv, arg))
         for acc in VAR_LAYERS[:4]:
             if acc + "(" in s:
                 return acc
@@ -572,6 +572,25 @@ def run(ctx) -> None:
             ok = bool(plat_tests) and match.only_via_edges(cfg, n, plat_tests)
             ctx.ob("C04.R1-variable-layer-order", c, ok, "platform layer applied only for a non-default platform" if ok else
                    "platform layer is applied also for the default platform", trivial=ok)
+    # the component's own layers (its variables, its override for the selected platform) do not depend on WHICH platform is selected
+    # (seed C04-13: the override layer skipped for the default platform)
+    sel_tests = [n for n in cfg.nodes if n.kind == "test" and n.ast is not None
+                 and any(isinstance(x, ast.Name) and x.id == "platform" for x in ast.walk(n.ast))]
+    for (n, c) in ups:
+        layer = classify_var_layer(c.args[0])
+        if layer in ("component.variables", "component.override.variables"):
+            # a side that only raises is a refusal of the platform, not a choice between platforms
+            def goes_on(t, lab):
+                starts = [m_ for (m_, l_) in t.succ if l_ == lab]
+                r = cfg.reach(starts, include_starts=True) if starts else set()
+                return any(x.id in r for x in cfg.nodes if x.kind == "stmt" and isinstance(x.ast, ast.Return))
+            gate = [(t, lab) for t in sel_tests for lab in ("T", "F")
+                    if match.only_via_edges(cfg, n, [(t, lab)]) and goes_on(t, match.other(lab))]
+            ok = not gate
+            ctx.ob("C04.R1-variable-layer-order", c, ok, "%s is applied whichever platform is selected" % layer if ok else
+                   "%s is applied only when `%s` is %s: for the other platforms the highest layer is missing and a lower scope wins"
+                   % (layer, short(gate[0][0].ast, 60), {"T": "true", "F": "false"}[gate[0][1]]),
+                   construct="%s gated by the selected platform" % layer, trivial=ok)
     # the platform argument of the accessors is the selected platform
     for (n, c) in ups:
         layer = classify_var_layer(c.args[0])
